@@ -39,7 +39,8 @@ def sort_family():
     cons = ["take 3", "filter k > 1 | take 2..3", "join u (==k) | take 5", "join y = x (==k) | take 5", "sort k | take 2",
             "group k (take 1)", "derive {r = k + 1} | take 2 | filter r > 1", "aggregate {n = count this}", "append (from x) | take 3",
             "select {k}", "take 4 | sort {-k} | take 2", "group k (sort a | take 1) | take 3", "join side:left u (==k) | sort {u.c} | take 2",
-            "take 5 | join u (==k) | take 2"]
+            "take 5 | join u (==k) | take 2", "group k (take 1) | take 2", "select {k} | group k (take 1) | derive {r = k + 1} | filter r > 1",
+            "group this (take 1) | join u (==k)"]
     n = 0
     for s in sorts:
         for p in projs:
@@ -55,6 +56,51 @@ def sort_family():
             n += 1
             out.append({"id": f"sf{n}t", "src": f"let x = (from t | sort {{{s}}} | take 4 | select {{{p}}})\nlet y = (from x | filter k > 0)\nfrom y | join z = y (==k) | take 2"})
     return out
+
+NAME_SRCS = [
+    "module m {\n  let foo = (from x | take 3)\n}\nfrom foo\njoin m.foo (==id)",
+    "module m {\n  let foo = (from x | take 3)\n}\nfrom m.foo\njoin foo (==id)",
+    "let foo = (from (from u | take 5) | join (from [{x = 1}]) (==x))\nfrom table_0 | join foo (==x)",
+    "from table_0 = employees | join (from x | take 5) (==id) | select {table_0.id}",
+    "from t | join t (this.boss == that.id) | join table_0 (this.t.id == that.id)",
+    "from s1.orders | join s2.orders (==id) | join table_0 (this.s1.orders.id == that.id)",
+    "from table_1 | take 3 | join table_0 (==id) | take 2 | join (from table_1 | take 1) (==id)",
+    "module a { let r = (from x | take 5) }\nmodule b { let r = (from y | take 7) }\nfrom a.r | join b.r (==id) | join r (a.r.id == r.id)",
+    "let table_0 = (from u | take 3)\nfrom t | take 2 | join u = table_0 (==k) | select {t.k, u.c}",
+    "let table_1 = (from t | take 1)\nfrom table_1 | join (from u | take 2) (==k) | take 1 | join table_1 (==k)",
+]
+
+def names_phase(rep, tier, extra=()):
+    """C09: the names the back end invents (spec/Names.tla): NamesMC at design level; the hook events `load` / `names` of
+    programs x dialects validated by BackendTrace (event Names)"""
+    d = workdir("C09-names")
+    build_harness()
+    rnd = random.Random(seed() + 99)
+    nmc = B.names_mc(tier)
+    if not nmc["holds"]:
+        rep.violation({"property": "C09", "kind": "names-design", "tlc": nmc.get("error_text", "")[:6000],
+                       "explanation": "NamesMC: the naming machine of spec/Names.tla gives names that do not satisfy its Verdict on a configuration of the bound"},
+                      {"what": "names-design", "tlc": nmc.get("error_text", "")})
+    import c07
+    srcs, _, _, _ = c07.build_sources(tier, d, rnd, tag="C09-nm")
+    sources = [{"id": s["id"], "src": s["src"]} for s in srcs]
+    if tier == "quick":
+        sources = rnd.sample(sources, min(len(sources), 500))
+    sources += [{"id": f"nm{i}", "src": x} for i, x in enumerate(NAME_SRCS)] + [{"id": f"nx{i}", "src": x} for i, x in enumerate(extra)]
+    r = B.run(d, sources, dialects="generic,postgres,mssql" if tier == "quick" else "all", tag="nm")
+    n = 0
+    for rec in r["rejects"]:
+        if not rec["verdict"].startswith("names-"):
+            continue
+        n += 1
+        rep.violation({"property": "C09", "kind": "backend-" + rec["verdict"], "dialect": rec["dialect"], "id": rec["id"], "prql": rec["source"].get("src"), "sql": rec["sql"],
+                       "what_was_built": B.describe(rec), "event": rec["event"], "trace_file": rec["trace_file"], "line": rec["line"]},
+                      {"what": "backend-" + rec["verdict"], "dialect": rec["dialect"], "sql": rec["sql"] or "", "src": rec["source"].get("src") or "", "built": B.describe(rec)})
+    drift = [x for x in r["drift"] if x["event"]["ev"] == "Names"]
+    if drift:
+        log(f"[names] DRIFT: {len(drift)} naming(s) of the code differ from the machine of spec/Names.tla (not a violation); first: {drift[0]['id']} {B.describe(drift[0])}")
+    return {"naming_machine": {"design_level": nmc, "programs": len(sources), "namings_validated": r["names"], "rejections": n, "drift": len(drift),
+                               "explanation": "spec/Names.tla transcribes how table declarations and relation instances get their names (QueryLoader::load, assign_names, RelVarNameAssigner) and states what C09 asks of the result; NamesMC checks the machine on every configuration of the bound, BackendTrace (event Names) checks what the real compiler named and compares the declarations' names with the machine's"}}, (nmc.get("states") or 0) + r["states"], r["names"]
 
 def _kinds(rec):
     e = rec["event"]
